@@ -3,5 +3,5 @@ CONSTANTS
   Tiny = FALSE
   WithOrders = TRUE
   SampleMod = 200
-INVARIANTS MergeMatchesUnion ValidAreAccepted RowsIndependent ExportInv
+INVARIANTS MergeMatchesUnion ValidAreAccepted RowsIndependent MixedAccepted MixedRowsIndependent ExportInv
 CHECK_DEADLOCK FALSE
